@@ -350,10 +350,43 @@ impl Sim {
             for c in cmds {
                 let a = c.address();
                 let loc = if self.has_graph(r) { with_rep!(&mut self.reps[r], rep => rep.locate(gid, a)).ok().flatten() } else { None };
-                eprintln!("DEBUG {ctx}: cmd {} parent {:?} mc {} in_view {} in_committed {} real_locate {:?}", short(&c.id), c.parent, a.max_cut, view.contains(&c.id), self.committed(r).contains(&c.id), loc);
+                let ps: Vec<String> = match c.parent { Prior::None => vec![], Prior::Single(p) => vec![short(&p.id)], Prior::Merge(l, rr) => vec![short(&l.id), short(&rr.id)] };
+                eprintln!("DEBUG {ctx}: cmd {} parents {:?} mc {} in_view {} in_committed {} real_locate {:?} stale {:?}", short(&c.id), ps, a.max_cut, view.contains(&c.id), self.committed(r).contains(&c.id), loc, with_rep!(&self.reps[r], rep => rep.trxs[t].as_ref().map(|x| (x.captured, rep.counter))));
             }
             let heads = with_rep!(&mut self.reps[r], rep => rep.heads(gid)).ok();
             eprintln!("DEBUG heads {:?}", heads.map(|h| h.iter().map(|x| (short(&x.id), x.max_cut.get(), x.segment.get())).collect::<Vec<_>>()));
+        }
+        // A transaction that has gone stale (another commit happened on this replica after it
+        // first read the heads) can only ever fail its commit with ConcurrentTransaction (C08,
+        // checked in `step_commit`). What `add_commands` does on it in the meantime is defined by
+        // no property: it may hold private copies of commands that were committed since, and the
+        // runtime looks commands up in the *current* committed graph. It is still driven (and
+        // must not panic the harness), but its outcome is not compared with the model.
+        let stale = with_rep!(&self.reps[r], rep => rep.trxs[t].as_ref().is_some_and(|x| x.captured.is_some_and(|c| c != rep.counter)));
+        if stale {
+            let mut sink = RecSink::default();
+            aranya_runtime::verif::set_fuel(self.cfg.fuel);
+            let res = with_rep!(&mut self.reps[r], rep => rep.add(t, cmds, &mut sink));
+            aranya_runtime::verif::set_fuel(u64::MAX);
+            self.log.borrow_mut().evals.clear();
+            self.stats.bump("stale_trx_adds");
+            for s in &mut self.sess {
+                if s.a == r && s.trx == t {
+                    s.clean = false;
+                }
+            }
+            match res {
+                Guarded::Done(x) => self.note(&format!("add r{r} t{t} (stale) -> {}", match &x { Ok(n) => format!("ok{n}"), Err(e) => classify(e) })),
+                Guarded::Panicked(m) => {
+                    if self.fs_hard(r) || m.starts_with(crate::simfs::CRASH_PANIC) {
+                        self.on_panic(None, &format!("{ctx}: add_commands on stale transaction"), m);
+                    } else {
+                        self.anomaly(format!("{ctx}: add_commands on a stale transaction panicked: {m}"));
+                        self.mark_dead_trx(r, t);
+                    }
+                }
+            }
+            return 0;
         }
         let view_before = self.view(r, Some(t));
         let pred = self.predict_add(r, t, gid, cmds);
